@@ -369,7 +369,12 @@ pub fn representatives() -> Vec<Inst> {
     v
 }
 
-pub const SEPARATORS: [(&str, &str); 10] = [
+pub const SEPARATORS: [(&str, &str); 15] = [
+    (" // c\r", "line-comment-ended-by-cr"),
+    (" // c\r\n", "line-comment-ended-by-crlf"),
+    ("/* o /* i */* still outer */", "nested-block-comment-star-after-close"),
+    ("/***/ /**/ /*/ */ /* **/", "block-comment-star-runs"),
+    ("/* a //*/ ", "block-comment-with-line-comment-opener"),
     (" ", "space"),
     ("\t", "tab"),
     ("\n", "lf"),
